@@ -283,10 +283,23 @@ func (fc *FnCtx) lemmaUse(env *Env, cur *Lemma, u string) (Term, error) {
 		return Term{}, fmt.Errorf("lemma %s: %d arguments, want %d", name, len(args), len(ul.Vars))
 	}
 	nb := map[string]binding{}
+	var qvars []string // `?x` arguments: the instance is universally quantified over them (integers)
 	for i, a := range args {
 		t, err := fc.lemmaVarType(ul.Vars[i].Type)
 		if err != nil {
 			return Term{}, err
+		}
+		if a = strings.TrimSpace(a); strings.HasPrefix(a, "?") {
+			if t != specIntType {
+				if bits, _, isInt := intInfo(t); !isInt || intSort(bits, fc.mode) != SInt {
+					return Term{}, fmt.Errorf("lemma %s: quantified argument %s must be an integer", name, a)
+				}
+			}
+			fc.nfresh++
+			qv := fmt.Sprintf("%s!q%d", a[1:], 900000+fc.nfresh)
+			qvars = append(qvars, qv)
+			nb[ul.Vars[i].Name] = binding{Leaf(Term{qv, SInt}), t}
+			continue
 		}
 		sv, err := fc.specExpr(env, a)
 		if err != nil {
@@ -306,7 +319,11 @@ func (fc *FnCtx) lemmaUse(env *Env, cur *Lemma, u string) (Term, error) {
 	if err != nil {
 		return Term{}, err
 	}
-	return Implies(r, e2), nil
+	inst := Implies(r, e2)
+	for i := len(qvars) - 1; i >= 0; i-- {
+		inst = Term{fmt.Sprintf("(forall ((%s Int)) %s)", qvars[i], inst.S), SBool}
+	}
+	return inst, nil
 }
 
 // lemmaBefore: a is stated before b (lemmas may only use earlier lemmas).
